@@ -96,6 +96,13 @@ def one_shape(col, n, edges, rng, variants, sample=False):
             prios[rng.randrange(n)] = 0
             col.counters["cp_shapes_without_positive_priority"] += 1
     sp = mk_spec(n, edges, prios)
+    tagged = []
+    if n >= 2 and rng.random() < 0.4:
+        # a tag shared by several nodes of DIFFERENT priorities: a reload addressed to the tag that does not name `priority`
+        # leaves every one of them its own
+        tagged = sorted(rng.sample(range(n), rng.randint(2, n)))
+        for i in tagged:
+            sp["fns"]["f%d" % i]["tag"] = "T"
     if n >= 3 and all(p > 0 for p in prios) and rng.random() < 0.2:
         # a block of the nodes lives in an inner DAG: same table entries (prefixed ids), same unique order (the argument stubs of
         # the inner DAG have priority 0, so with positive priorities a stub never ranks below the node it feeds)
@@ -162,9 +169,12 @@ def one_shape(col, n, edges, rng, variants, sample=False):
             if rng.random() < 0.6:
                 k = rng.randrange(n)
                 conf2 = {"nodes": {ids[k]: {"is_sequential": False}}}
-                if rng.random() < 0.5:
-                    j2 = rng.randrange(n)
-                    p2[j2] = next(fresh) * (1 if sp.get("nest") else rng.choice([1, -1]))
+                if tagged and rng.random() < 0.7:
+                    conf2 = {"nodes": {"T": {"is_sequential": False}}}
+                    col.counters["cp_reconfigurations_by_shared_tag_without_priority"] += 1
+                j2 = rng.randrange(n)
+                if rng.random() < 0.5 and not ("T" in conf2["nodes"] and j2 in tagged):
+                    p2[j2] = p2[j2] * (1 if sp.get("nest") else rng.choice([1, -1]))
                     conf2["nodes"].setdefault(ids[j2], {})["priority"] = p2[j2]
                 d.config_from_dict(conf2)
                 col.counters["cp_second_reconfigurations"] += 1
